@@ -4,7 +4,8 @@ import json
 RULE = ("TLC enumerates configurations: 1-D (N in 4,5,8,12; 1-2 channels; modes 2,3,5,9 = below/equal/above N div 2 + 1; "
         "linear and skip connections on/off; single layer or 2-layer FNO with Tanh; ALL shifts; refinement x2, x3 for "
         "band-limited inputs) and 2-D (three resolutions, 1 or 3 channels, three mode pairs, six shifts); random weights "
-        "and fields (seeded); non-trivial = every configuration")
+        "and fields (seeded); grids oversampling the kept modes 8+ times (N = 16, 24, 33; 2-D 16x8, 8x24, 16x17); FNO inputs of two "
+        "variables presented in the other order; non-trivial = every configuration")
 
 
 def run(ctx):
